@@ -52,6 +52,7 @@ type world struct {
 	sz       dsu.Sizes
 	events   map[string]bool
 	injected int64 // faults delivered (atomic via mutex)
+	errKind  int   // kind of the injected store errors (dsu.FaultErr)
 	mu       sync.Mutex
 	failedID map[desync.ChunkID]bool
 	viol     bool
@@ -86,7 +87,7 @@ func run(c *harness.Ctx, i int) {
 	for _, ch := range idx.Chunks {
 		ms.PutRaw(ch.ID, blob[ch.Start:ch.Start+ch.Size])
 	}
-	w := &world{c: c, rng: rng, blob: blob, idx: idx, ms: ms, sz: sz, events: map[string]bool{}, failedID: map[desync.ChunkID]bool{}}
+	w := &world{c: c, rng: rng, blob: blob, idx: idx, ms: ms, sz: sz, events: map[string]bool{}, failedID: map[desync.ChunkID]bool{}, errKind: rng.Intn(4)}
 	dir := c.CaseDir()
 	cache := filepath.Join(dir, "cache")
 	state := filepath.Join(dir, "state")
@@ -321,7 +322,7 @@ func (w *world) inject(id desync.ChunkID, n int64) error {
 	w.injected++
 	w.failedID[id] = true
 	w.mu.Unlock()
-	return dsu.ErrInjected{Msg: fmt.Sprintf("get#%d", n)}
+	return dsu.FaultErr(w.errKind, fmt.Sprintf("get#%d", n))
 }
 
 // handle issues a sequence of reads on one handle.
